@@ -15,8 +15,12 @@ Transcribed source (pinned tree):
                                without a waiter (`burn`)
       _exchange_generic_opack :155-174  `_queues[identifier] = SharedData()`; `wait(timeout)`;
                                a timeout does NOT remove the entry (abandoned SharedData stays)
-      _handle_opack :217-236   `_t` = Event → listener.event_received (`recv none`),
-                               `_t` = Response: `_queues.pop(xid).set(data)` or log only (`drop`)
+      _handle_opack :217-236   classified by `_t` FIRST: `_t` = Event → listener.event_received whatever
+                               `_x` it carries (`msg .event k v`), `_t` = Response (`recv k v`):
+                               `_queues.pop(xid).set(data)` or log only (`drop`), any other `_t`
+                               (device-originated request, missing) → warning only (`msg .other k v`)
+      MRP matches on the identifier alone, whatever the message type (`typed = false`): a
+      ProtocolMessage of any type carrying an outstanding identifier IS the answer.
       pyatv/support/collections.py SharedData :138-156
 * `Fifo`   pyatv/support/http.py  HttpConnection
       send_and_receive :437-487  `_requests.appendleft(pending)`; on timeout the pending entry is
@@ -34,11 +38,17 @@ coroutine's own identifier as `kof`.  Only 2xx RTSP responses are modelled.  Imp
 -/
 namespace PyatvModel.C03
 
+/-- what the type field of a message that is not a response says (Companion `_t`) -/
+inductive Kind | event | other
+  deriving DecidableEq, Repr
+
 /-- what the environment does -/
 inductive Ev
   | send                            -- a caller starts a request (request number and key allocated here)
   | burn                            -- a key is consumed without a waiter (Companion send_opack)
   | recv (k : Option Nat) (v : Nat) -- a message arrives: identifier (if it carries one), payload id
+  | msg (kd : Kind) (k : Option Nat) (v : Nat) -- a message whose type field says "not a response"
+                                    -- arrives; it may still carry an identifier-valued field
   | timeout (r : Nat)               -- the timer of request r fires
   deriving DecidableEq, Repr
 
@@ -89,10 +99,15 @@ structure KEntry where
 structure Cfg where
   removeOnTimeout : Bool     -- MRP: `del self._outstanding[identifier]`; Companion: entry stays
   dispatchUnmatched : Bool   -- MRP: `self.dispatch(message.type, message)`; Companion: log only
+  typed : Bool               -- Companion: `_t` is looked at before `_x`; MRP: the type is not looked at
   deriving DecidableEq, Repr
 
-def Cfg.mrp : Cfg := ⟨true, true⟩
-def Cfg.companion : Cfg := ⟨false, false⟩
+def Cfg.mrp : Cfg := ⟨true, true, false⟩
+def Cfg.companion : Cfg := ⟨false, false, true⟩
+
+/-- what a message that matches no waiting request turns into -/
+def unmatched (cfg : Cfg) (k : Option Nat) (v : Nat) : Out :=
+  if cfg.dispatchUnmatched then .dispatch k v else .drop k v
 
 structure KState where
   nreq : Nat
@@ -102,6 +117,17 @@ structure KState where
 
 def kinit (base : Nat) : KState := ⟨0, base, fun _ => none, fun _ => 0⟩
 
+/-- matching of a message by the identifier it carries -/
+def krecv (cfg : Cfg) (s : KState) (k : Option Nat) (v : Nat) : KState × List Out :=
+  match k with
+  | none => (s, [unmatched cfg none v])
+  | some k =>
+      match s.tbl k with
+      | some e =>
+          ({ s with tbl := upd s.tbl k none },
+           [if e.alive then .deliver e.req (some k) v else .drop (some k) v])
+      | none => (s, [unmatched cfg (some k) v])
+
 def kstep (cfg : Cfg) (s : KState) : Ev → KState × List Out
   | .send =>
       ({ nreq := s.nreq + 1, nkey := s.nkey + 1,
@@ -109,13 +135,13 @@ def kstep (cfg : Cfg) (s : KState) : Ev → KState × List Out
          kof := fun r => if r = s.nreq then s.nkey else s.kof r },
        [.sent s.nreq s.nkey])
   | .burn => ({ s with nkey := s.nkey + 1 }, [])
-  | .recv none v => (s, [.dispatch none v])
-  | .recv (some k) v =>
-      match s.tbl k with
-      | some e =>
-          ({ s with tbl := upd s.tbl k none },
-           [if e.alive then .deliver e.req (some k) v else .drop (some k) v])
-      | none => (s, [if cfg.dispatchUnmatched then .dispatch (some k) v else .drop (some k) v])
+  | .recv k v => krecv cfg s k v
+  | .msg kd k v =>
+      if cfg.typed then
+        match kd with
+        | .event => (s, [.dispatch k v])   -- the identifier-valued field is not looked at
+        | .other => (s, [.drop k v])
+      else krecv cfg s k v
   | .timeout r =>
       match s.tbl (s.kof r) with
       | some e =>
@@ -137,6 +163,7 @@ def finit : FState := ⟨0, []⟩
 def fstep (s : FState) : Ev → FState × List Out
   | .send => (⟨s.nreq + 1, s.queue ++ [s.nreq]⟩, [.sent s.nreq s.nreq])
   | .burn => (s, [])
+  | .msg _ _ _ => (s, [])     -- HTTP carries responses only
   | .recv k v =>
       match s.queue with
       | [] => (s, [.drop k v])
@@ -209,6 +236,7 @@ def rstep (s : RState) : Ev → RState × List Out
          kof := fun x => if x = r then s.cseq else s.kof x },
        [.sent r s.cseq])
   | .burn => (s, [])
+  | .msg _ _ _ => (s, [])
   | .recv k v =>
       match fstep s.http (.recv k v) with
       | (h', [.deliver r _ _]) =>
@@ -248,6 +276,7 @@ def tinit : Tracker := ⟨0, 0, []⟩
 def tstep (t : Tracker) : Ev → Tracker
   | .send => { t with n := t.n + 1 }
   | .burn => t
+  | .msg _ _ _ => t
   | .recv _ _ => { t with m := t.m + 1 }
   | .timeout r => if t.m ≤ r ∧ r < t.n ∧ r ∉ t.ab then { t with ab := r :: t.ab } else t
 
